@@ -74,6 +74,33 @@ func construct(op Op) (s col.StackLike[int], m model, out rt.Outcome) {
 			s = C.MakeFromSequence(src)
 			m = model{vals: vals, cap: -1}
 			guardSrc, guardDump = src, common.View(src)
+		case "MakeFromArrayCollectionThenChangeSource", "MakeFromListThenChangeSource", "MakeFromGetValuesThenChangeSource":
+			// the sequence a stack was made from stays the caller's: changing it in place afterwards (before the stack
+			// itself has been changed once) does not change the stack
+			vals := mk(op.I)
+			var src col.Sequential[int]
+			switch op.K {
+			case "MakeFromArrayCollectionThenChangeSource":
+				src = col.Array[int](common.N()).MakeFromArray(append([]int(nil), vals...))
+			case "MakeFromListThenChangeSource":
+				src = col.List[int](common.N()).MakeFromArray(append([]int(nil), vals...))
+			default:
+				l := col.List[int](common.N()).MakeFromArray(append(append([]int{-1}, vals...), -2))
+				if len(vals) == 0 {
+					src = col.List[int](common.N()).Make()
+				} else {
+					src = l.GetValues(2, len(vals)+1)
+				}
+			}
+			s = C.MakeFromSequence(src)
+			if u, ok := src.(interface {
+				SetValue(int, int)
+				ReverseValues()
+			}); ok && len(vals) > 0 {
+				u.ReverseValues()
+				u.SetValue(1, -7)
+			}
+			m = model{vals: vals, cap: -1}
 		case "MakeFromStackThenPushSource", "MakeFromArrayOfStackThenPushSource", "MakeFromOwnArrayViewThenPush":
 			// a copy of a stack that has room to spare, and then BOTH grow: each keeps its own values
 			src := C.MakeWithCapacity(uint(op.I + 3))
@@ -345,6 +372,7 @@ func units(tier string) []engine.Unit {
 			inits = append(inits, Op{K: "MakeFromArray", I: n}, Op{K: "MakeFromSequence", I: n})
 		}
 		for n := 0; n <= 5; n++ {
+			inits = append(inits, Op{K: "MakeFromArrayCollectionThenChangeSource", I: n}, Op{K: "MakeFromListThenChangeSource", I: n}, Op{K: "MakeFromGetValuesThenChangeSource", I: n})
 			inits = append(inits, Op{K: "MakeFromStack", I: n}, Op{K: "MakeFromStackThenPushSource", I: n}, Op{K: "MakeFromArrayOfStackThenPushSource", I: n}, Op{K: "MakeFromOwnArrayViewThenPush", I: n})
 		}
 		s := &seqx.Search[Op]{Name: name, MaxSize: 1 << 30, Ops: oneVal, Exec: exec(r, name), Inits: inits}
